@@ -34,6 +34,12 @@ CHECKS = {
  "C16": dict(tech="static analysis: unit typing (rune-count vs byte-offset) of integers in the position arithmetic (UNIT) and codec pairing (CODEC)",
    text="Code-point vs byte indexing cannot be mixed in Substring/Pad/positionOfNthRune; encoder/decoder pairs use the same codec; $length is a code-point count. The string laws as equalities are not decided.",
    ref="DESIGN.md §3 UNIT, CODEC; §4 C16"),
+ "C09": dict(tech="static analysis: NF dataflow over all of reach(Eval), dispatch exhaustiveness (TAB), explicit-panic inventory, loop-variant classification and recursion inventory (LOOP/REC), dominating guards (GUARD), interface-keyed map rule (HASH)",
+   text="The crash and hang classes that are visible in the shape of the code, decided for every program and input over the module call graph under Eval: unresolved reflect accessors, missing dispatch cases, loops without a variant, unguarded integer division / radix / repeat count, unhashable map keys. The remaining panic classes (type assertions, Set on zero Values, nil interfaces, stack depth) are not decided and are listed as such.",
+   ref="DESIGN.md §3 NF, TAB, LOOP, GUARD, HASH; §4 C09"),
+ "C18": dict(tech="static analysis: loop-variant classification incl. positive multiplicative scaling (LOOP class M), FIN on the number built-ins, radix/repeat guards (GUARD)",
+   text="Termination of every loop under the number formatting functions (the clause behind the $formatNumber hang), finiteness of $power/$sqrt/$round results, and the exact [2,36] radix guard. Rounding, shortest form and picture rendering are value-level and not decided.",
+   ref="DESIGN.md §3 LOOP, FIN, GUARD; §4 C18"),
  "C19": dict(tech="static analysis: table exhaustiveness (TAB), clock-source who-may-call rule and single-instant dataflow (CLOCK), API reachability (GUARD-API), dominating guards (GUARD)",
    text="All 17 date components are dispatched and have defaults; one clock reading per Eval shared by $now/$millis; no 64-bit-nanosecond API on the $toMillis path; no unguarded integer division under $fromMillis. Calendar field values and the inverse law are not decided.",
    ref="DESIGN.md §3 TAB, CLOCK, GUARD; §4 C19"),
